@@ -8,6 +8,7 @@ pub mod core;
 pub mod lattices;
 pub mod strat;
 pub mod byods;
+pub mod features;
 
 pub fn all() -> Vec<ProgramDef> {
    let mut v = vec![];
@@ -15,5 +16,6 @@ pub fn all() -> Vec<ProgramDef> {
    v.extend(lattices::all());
    v.extend(strat::all());
    v.extend(byods::all());
+   v.extend(features::all());
    v
 }
